@@ -148,6 +148,26 @@ def write_settings(dirpath, s):
     return dirpath
 
 
+def tree_digest():
+    """SHA-256 over every source file of the tree under test: the zygotes import it once at start while true CLI runs
+    import it when they run, so a commit landing in between must be told apart from a harness fault."""
+    import hashlib
+    h = hashlib.sha256()
+    src = os.path.join(common.REPO, "src")
+    for r, dn, fn in os.walk(src):
+        dn[:] = sorted(d for d in dn if d != "__pycache__")
+        for n in sorted(fn):
+            if n.endswith((".py", ".yaml", ".so")):
+                p = os.path.join(r, n)
+                h.update(os.path.relpath(p, src).encode())
+                try:
+                    with open(p, "rb") as f:
+                        h.update(f.read())
+                except OSError:
+                    h.update(b"?")
+    return h.hexdigest()
+
+
 def order_sensitive_dir():
     """A directory on a file system whose listing order follows file creation order (needed for the
     file-creation-order dimension; ext4 lists by name hash whatever the creation order). None if there is none."""
@@ -562,6 +582,7 @@ def main():
     root = os.path.join(common.scratch(), "c14")
     os.makedirs(root, exist_ok=True)
     tmpfs_root = order_sensitive_dir()
+    digest_at_start = tree_digest()
     random_seed = int.from_bytes(os.urandom(4), "big") % 4294967296
     while random_seed in FIXED_SEEDS:
         random_seed += 7
@@ -588,6 +609,10 @@ def main():
     n_jobs = sum(len(v) for v in plan.jobs.values()) + len(plan.done)
     results.update(run_workers(plan, root, 3300 if thorough else 900, chk))
     chk.evaluated(len(results))
+    tree_changed = tree_digest() != digest_at_start
+    if tree_changed:
+        chk.note_inconclusive(f"the source tree {common.REPO}/src changed while the check was running (zygotes hold the old code, "
+                              "later CLI runs / workers the new one): run again on a quiet tree")
     slow = sorted(((r["wall"], r.get("value", {}).get("run_s") if r["status"] == "ok" else None,
                     r.get("value", {}).get("lock_wait") if r["status"] == "ok" else None, jid) for jid, r in results.items()), reverse=True)
     chk.extra["slowest_jobs(wall,run_s,lock_wait,id)"] = slow[:12]
@@ -620,7 +645,8 @@ def main():
         if dim == "cli-vs-fork":
             chk.count("true CLI runs compared with the forked run of the same job")
             for sig, desc, w in res:
-                chk.note_inconclusive("harness: forked run and true CLI run disagree: " + desc)
+                chk.note_inconclusive(("the tree changed during the run, so " if tree_changed else "harness: ")
+                                      + "forked run and true CLI run disagree: " + desc)
             continue
         if dim == "history":
             # the history step must really have happened: another project's artefacts were there before the run
@@ -637,7 +663,12 @@ def main():
         if any(r.startswith("taint/") and e["size"] > 2 for r, e in snap.items()):
             taint_nonempty.add(pname)
         for sig, desc, w in res:
-            chk.fail(sig, desc, make_case(plan, by, pair, w))
+            if tree_changed:
+                # phase-0 and main-phase zygotes (and the CLI runs) may have imported different code: not a verdict
+                if len(chk.inconclusive) < 8:
+                    chk.note_inconclusive("not judged because the tree changed during the run: " + sig + ": " + desc[:300])
+            else:
+                chk.fail(sig, desc, make_case(plan, by, pair, w))
     for key, label in (("files_compared", "artefact file pairs compared"), ("byte_identical", "artefact file pairs byte-identical"),
                        ("decoded_compared", "artefact file pairs compared at decoded level")):
         chk.count(label, sum(v for d, v in stats[key].items() if d != "cli-vs-fork"))
